@@ -11,8 +11,16 @@ Driver of property C01.
       OUT  ERR | PANIC | OK <sym> <n text bytes> <again>
   print <rep> <setCount> <symCount> <sym-in>   rep ∈ pset sset psym ssym
       OUT  <n text bytes> <again>
+  bigprint <rep> <setCount> <symCount> <sym-in>        symbols with ≥ 10^4 chambers: Spec only
+      OUT  <text length> <again>
+  bigparse <layout> <sym-in>              the harness writes the text of sym-in itself and parses it
+      OUT  <text length> (ERR | PANIC | OK <sym> <again>)
+  bigdigest <what> <size> <dim>           ≥ 2^20 chambers: the tables stay in the harness, which
+      OUT  <text length> <bits…>           compares them with its own code and reports verdict bits
   <sym>   := size dim op… v… m…   (SymIO layout, then m(i,i+1,d) for i < dim, d = 1..size)
   <again> := ERR | PANIC | OK <sym>       result of parsing the printed text
+
+Decoding is array based (no recursion over the token list): answers hold millions of tokens.
 -/
 namespace DrvC01
 open DSymVerif.Text DSymVerif.SpecC01
@@ -43,34 +51,69 @@ def modelParse (cs : List Char) : String :=
   | .err => "ERR"
   | .panic => "PANIC"
 
-/-! decoding the implementation's answer -/
+/-! decoding the implementation's answer: a cursor `(tokens, position)`, loops only -/
+
+abbrev D := StateT Nat Option
+
+def D.tok (a : Array String) : D String := fun i =>
+  if h : i < a.size then some (a[i], i + 1) else none
+
+def D.nat (a : Array String) : D Nat := do
+  let t ← D.tok a
+  match t.toNat? with
+  | some v => pure v
+  | none => failure
+
+/-- the next n tokens as numbers -/
+def D.nats (a : Array String) (n : Nat) : D (Array Nat) := fun i =>
+  if i + n ≤ a.size then
+    match (a.extract i (i + n)).mapM String.toNat? with
+    | some v => some (v, i + n)
+    | none => none
+  else none
+
+/-- a length-prefixed list -/
+def D.lnats (a : Array String) : D (Array Nat) := do
+  let n ← D.nat a
+  D.nats a n
+
+def D.rawSym (a : Array String) : D RawSym := do
+  let size ← D.nat a
+  let dim ← D.nat a
+  let op ← D.nats a (size * (dim + 1))
+  let v ← D.nats a (dim * size)
+  pure { size := size, dim := dim, op := op, v := v }
 
 def specSym (s : RawSym) (m : Array Nat) : Sym :=
   { size := s.size, dim := s.dim, op := s.opAt, v := s.vAt,
     m := fun i d => m.getD (i * s.size + (d - 1)) 0 }
 
-def P.symM : P Sym := do
-  let s ← P.rawSym
-  let m ← P.rep (s.dim * s.size) P.nat
-  pure (specSym s m.toArray)
+def D.symM (a : Array String) : D Sym := do
+  let s ← D.rawSym a
+  let m ← D.nats a (s.dim * s.size)
+  pure (specSym s m)
 
-def P.res : P Res := do
-  let t ← P.tok
+def D.res (a : Array String) : D Res := do
+  let t ← D.tok a
   match t with
   | "ERR" => pure Res.err
   | "PANIC" => pure Res.panic
-  | "OK" => do let s ← P.symM; pure (Res.ok s)
+  | "OK" => do let s ← D.symM a; pure (Res.ok s)
   | _ => failure
 
-def P.done : P Unit := do
-  let e ← P.atEnd
-  if e then pure () else failure
+def D.done (a : Array String) : D Unit := fun i => if i ≥ a.size then some ((), i) else none
+
+def runD {α} (p : D α) : Option α := (p 0).map (·.1)
 
 /-- the symbol handed to a `print` case, with degrees from the Spec's own orbit lengths -/
 def inputSym (s : RawSym) (isSym : Bool) : Sym :=
   let base : Sym := { size := s.size, dim := s.dim, op := s.opAt, v := fun _ _ => 0, m := fun _ _ => 0 }
   if isSym then
-    { base with v := s.vAt, m := fun i d => (base.orbitLen i d).getD 0 * s.vAt i d }
+    if s.size ≤ naiveLimit then
+      { base with v := s.vAt, m := fun i d => (base.orbitLen i d).getD 0 * s.vAt i d }
+    else
+      let tabs := (List.range s.dim).toArray.map fun i => base.orbitLenTable i
+      { base with v := s.vAt, m := fun i d => (tabs.getD i #[]).getD d 0 * s.vAt i d }
   else base
 
 def printable (rep : String) (s : RawSym) (setc symc : Nat) : Option Printable :=
@@ -85,34 +128,38 @@ def printable (rep : String) (s : RawSym) (setc symc : Nat) : Option Printable :
     | _ => none
   | _ => none
 
+def isSymRep (rep : String) : Bool := rep == "psym" || rep == "ssym"
+
+def bit (b : Nat) : Bool := b == 1
+
 def handler : Handler := fun op inp out =>
   let bad := ("-", fail "driver-cannot-parse-input")
   match op with
   | "parse" =>
-    match run P.nats inp with
+    match runD (D.lnats inp) with
     | some bs =>
-      let model := modelParse (bytesToChars bs)
+      let model := modelParse (bytesToChars bs.toList)
       if out == #["ERR"] then (model, ok)
       else if out == #["PANIC"] then (model, fail "parsing-never-panics")
       else
-        match run (do
-            let t ← P.tok
+        match runD (do
+            let t ← D.tok out
             if t != "OK" then failure
-            let s ← P.symM
-            let _text ← P.nats
-            let again ← P.res
-            P.done
-            pure (s, again)) out with
+            let s ← D.symM out
+            let _text ← D.lnats out
+            let again ← D.res out
+            D.done out
+            pure (s, again)) with
         | some (s, again) => (model, check (parsedClauses (Res.ok s) ++ reparseClauses s again))
         | none => (model, fail "answer-not-understood")
     | none => bad
   | "print" =>
-    match run (do
-        let rep ← P.tok
-        let setc ← P.nat
-        let symc ← P.nat
-        let s ← P.rawSym
-        pure (rep, setc, symc, s)) inp with
+    match runD (do
+        let rep ← D.tok inp
+        let setc ← D.nat inp
+        let symc ← D.nat inp
+        let s ← D.rawSym inp
+        pure (rep, setc, symc, s)) with
     | some (rep, setc, symc, s) =>
       match printable rep s setc symc with
       | none => bad
@@ -120,11 +167,55 @@ def handler : Handler := fun op inp out =>
         let model := textAndAgain p
         if out == #["PANIC"] then (model, fail "printing-never-panics")
         else
-          match run (do let _text ← P.nats; let again ← P.res; P.done; pure again) out with
-          | some again =>
-            (model, check (printClauses (inputSym s (rep == "psym" || rep == "ssym")) again))
+          match runD (do let _text ← D.lnats out; let again ← D.res out; D.done out; pure again) with
+          | some again => (model, check (printClauses (inputSym s (isSymRep rep)) again))
           | none => (model, fail "answer-not-understood")
     | none => bad
+  | "bigprint" =>
+    match runD (do
+        let rep ← D.tok inp
+        let _setc ← D.nat inp
+        let _symc ← D.nat inp
+        let s ← D.rawSym inp
+        pure (rep, s)) with
+    | some (rep, s) =>
+      if out == #["PANIC"] then ("-", fail "printing-never-panics")
+      else
+        match runD (do let _len ← D.nat out; let again ← D.res out; D.done out; pure again) with
+        | some again => ("-", check (printClauses (inputSym s (isSymRep rep)) again))
+        | none => ("-", fail "answer-not-understood")
+    | none => bad
+  | "bigparse" =>
+    if out == #["PANIC"] then ("-", fail "parsing-never-panics")
+    else
+      match runD (do
+          let _len ← D.nat out
+          let t ← D.tok out
+          match t with
+          | "ERR" => do D.done out; pure none
+          | "OK" => do
+            let s ← D.symM out
+            let again ← D.res out
+            D.done out
+            pure (some (s, again))
+          | _ => failure) with
+      | some none => ("-", ok)
+      | some (some (s, again)) => ("-", check (parsedClauses (Res.ok s) ++ reparseClauses s again))
+      | none => ("-", fail "answer-not-understood")
+  | "bigdigest" =>
+    -- verdict bits computed by the harness's own table comparison (tables of 2^20+ chambers are
+    -- not shipped): printed, parsed-back, equal tables, involutions, second round trip equal
+    if out == #["PANIC"] then ("-", fail "printing-or-parsing-never-panics")
+    else
+      match out.toList.map String.toNat? with
+      | [some _len, some parsed, some equal, some invol, some again, some equal2] =>
+        ("-", check [
+          ("printed-text-parses-again", bit parsed),
+          ("printed-text-parses-to-the-same-symbol", bit equal),
+          ("parsed-ops-are-involutions-on-1..size", bit invol),
+          ("printed-text-parses-again", bit again),
+          ("printed-text-parses-to-the-same-symbol", bit equal2)])
+      | _ => ("-", fail "answer-not-understood")
   | "setup" => ("-", fail "library-constructor-panicked-while-building-the-input-universe")
   | _ => ("-", fail s!"driver-unknown-op-{op}")
 
